@@ -192,6 +192,68 @@ def sig_worker(args):
     return out
 
 
+def concurrency_case(kfile, kind, variant, nthreads):
+    """make_case() for c10_sched.explore: `nthreads` threads sign with ONE key object; judge = every
+    signature verifies under the public key (independently re-encoded for PKCS#1), a signature made
+    AFTERWARDS with the same object verifies too, and the RSA blinding pair still satisfies its invariant."""
+    import c10_util as U
+
+    def make():
+        key = U.load_key(kfile if not kfile.startswith('corpus:') else os.path.join(CORPUS, kfile[7:]))
+        msgs = [b'thread %d message' % i for i in range(nthreads + 1)]
+        if variant == 'warm':
+            U.tl_sign(key, kind, b'warm-up', 'pkcs1' if kind == 'rsa' else 'pss' if kind == 'rsa-pss' else None,
+                      'sha256' if kind != 'eddsa' else None, 32 if kind == 'rsa-pss' else 0)
+        specs = []
+        for i in range(nthreads + 1):
+            if kind == 'rsa':
+                specs.append(('pkcs1', 'sha256', 0) if i % 2 == 0 else ('pss', 'sha256', 32))
+            elif kind == 'rsa-pss':
+                specs.append(('pss', 'sha256', 32))
+            elif kind == 'eddsa':
+                specs.append((None, None, None))
+            else:
+                specs.append((None, 'sha256', None))
+        thunks = [(lambda i=i: U.tl_sign(key, kind, msgs[i], *specs[i])) for i in range(nthreads)]
+
+        def judge(results):
+            for i, r in enumerate(results):
+                if r[0] != 'ok':
+                    return 'thread %d: signing ended with %s' % (i, r[1])
+                v = U.tl_verify(key, kind, r[1], msgs[i], *specs[i])
+                if v is not True:
+                    return 'the signature made by thread %d (%s) does not verify under the public key: %s' % (i, specs[i][0], v)
+                if kind == 'rsa' and specs[i][0] == 'pkcs1':
+                    k = (int(key.n).bit_length() + 7) // 8
+                    T = U.digestinfo('sha256', hashlib.sha256(msgs[i]).digest())
+                    em = b'\x00\x01' + b'\xff' * (k - len(T) - 3) + b'\x00' + T
+                    if pow(int.from_bytes(r[1], 'big'), int(key.e), int(key.n)) != int.from_bytes(em, 'big'):
+                        return 'thread %d: sig^e mod n is not the EMSA-PKCS1-v1_5 encoding' % i
+            j = nthreads
+            later = U.tl_sign(key, kind, msgs[j], *specs[j])
+            if U.tl_verify(key, kind, later, msgs[j], *specs[j]) is not True:
+                return 'a signature made with the same key object AFTER the concurrent calls does not verify (state left corrupted)'
+            if kind in ('rsa', 'rsa-pss') and int(key.blinder) and \
+                    (int(key.blinder) * pow(int(key.unblinder), int(key.e), int(key.n))) % int(key.n) != 1:
+                return 'blinding invariant blinder * unblinder^e = 1 (mod n) no longer holds'
+            return None
+        return key, thunks, judge
+    return make
+
+
+def concurrency_worker(args):
+    import c10_sched
+    kfile, kind, variant, nthreads, max_runs = args
+    try:
+        r = c10_sched.explore(concurrency_case(kfile, kind, variant, nthreads), max_runs=max_runs)
+        r.update(kfile=kfile, kind=kind, variant=variant, nthreads=nthreads)
+        return r
+    except Exception as e:  # noqa
+        import traceback
+        return dict(kfile=kfile, kind=kind, variant=variant, nthreads=nthreads, error='%s: %s' % (type(e).__name__, e),
+                    tb=traceback.format_exc()[-1000:])
+
+
 SPELLINGS = ['pkcs1', 'PKCS1', 'Pkcs1', 'pss', 'PSS']
 SIG_OIDS = {'sha1': [0x2a, 0x86, 0x48, 0x86, 0xf7, 0xd, 0x1, 0x1, 0x5], 'sha256': [0x2a, 0x86, 0x48, 0x86, 0xf7, 0xd, 0x1, 0x1, 0xb]}
 
@@ -934,6 +996,14 @@ def run(ctx):
         a_sig = pool.map_async(sig_worker, sig_tasks, chunksize=1)
         a_odd = pool.map_async(odd_key_worker, ['rsa704', 'rsa1025'])
         a_disp = pool.map_async(dispatch_worker, [(f, rng.randrange(2 ** 31)) for f in ('serverRSAPSSKey.pem', 'clientX509Key.pem', 'serverX509Key.pem')])
+        conc_tasks = [('clientX509Key.pem', 'rsa', 'fresh', 2, 4000), ('clientX509Key.pem', 'rsa', 'warm', 2, 4000),
+                      ('serverRSAPSSKey.pem', 'rsa-pss', 'fresh', 2, 1500), ('corpus:rsa1025.pem', 'rsa', 'warm', 2, 1500),
+                      ('serverECKey.pem', 'ecdsa', 'fresh', 2, 50), ('serverEd25519Key.pem', 'eddsa', 'fresh', 2, 50),
+                      ('serverDSAKey.pem', 'dsa', 'fresh', 2, 50)]
+        if not quick:
+            conc_tasks += [('clientX509Key.pem', 'rsa', 'fresh', 3, 6000), ('clientX509Key.pem', 'rsa', 'warm', 3, 6000),
+                           ('serverX509Key.pem', 'rsa', 'warm', 2, 4000)]
+        a_conc = pool.map_async(concurrency_worker, conc_tasks, chunksize=1)
         a_dsagen = pool.map_async(dsa_generate_worker, [rng.randrange(2 ** 31) for _ in range(2 if quick else 8)])
         kex_tasks = []
         for ver in ((3, 3), (3, 4)):
@@ -1095,6 +1165,21 @@ def run(ctx):
                     found = ctx.violation('scheme-roundtrip:%s:%s:%s:%s' % (r['entry'], r['spelling'], r['made_with'], r['key_type']),
                                           'NOT accepted (%s): ' % (r['got'],) + call, dict(r)) or found
         ctx.log('scheme/key-type dispatch: %d calls' % nd)
+        nruns = 0
+        for r in a_conc.get(1800):
+            if 'error' in r:
+                tie_broken = tie_broken or 'interleaving explorer failed for %s: %s' % (r['kfile'], r['error'])
+                continue
+            nruns += r['runs']
+            ctx.count('thread-interleavings', r['runs'], [(r['kind'], r['variant'], r['nthreads'], r['complete'], r['points'])],
+                      sample={k: r[k] for k in ('kfile', 'variant', 'nthreads', 'runs', 'complete', 'points', 'watch')})
+            if r['failure']:
+                found = ctx.violation('concurrent-sign-invalid:%s:%s' % (r['kind'], r['variant']),
+                                      '%d threads signing with ONE %s key object (tests/%s, %s): under the interleaving %s: %s'
+                                      % (r['nthreads'], r['kind'], r['kfile'], r['variant'], r['schedule'], r['failure']),
+                                      dict(r, how='harness/c10_sched.run_schedule(C10.concurrency_case(kfile, kind, variant, nthreads), schedule); '
+                                                  'events = the scheduling points in order')) or found
+        ctx.log('thread interleavings of concurrent signing: %d executions over %d set-ups' % (nruns, len(conc_tasks)))
         for r in a_dsagen.get(900):
             ctx.count('dsa-generate', 1, [('verified', r.get('verified'), r.get('q_divides_p_minus_1'))], sample={k: str(v)[:60] for k, v in r.items()})
             if 'error' in r:
@@ -1175,6 +1260,20 @@ def run(ctx):
         # expensive families first so that the pool is not left waiting for one long job at the end
         order = sorted(range(len(files)), key=lambda i: {'x': 0, 'verify': 1}.get(owners[i][0], 2))
         outs = vlib.coq_run_files([files[i] for i in order], timeout=2400)
+        # a coqc killed from outside, or .vo files rebuilt by a concurrent run of the same tree, is not a
+        # disagreement: rebuild the model closure and evaluate those files again (alone) before reporting
+        import re
+        redo = [j for j, (rc, out) in enumerate(outs)
+                if rc != 0 or len(re.findall(r'=\s*\[(.*?)\]\s*:\s*list nat', out, flags=re.S)) != 1]
+        for attempt in (1, 2):
+            if not redo:
+                break
+            ctx.notes.append('model evaluation: %d file(s) re-run after rc!=0 (attempt %d): %s' % (len(redo), attempt, outs[redo[0]][1][-200:]))
+            vlib.coq_make(MODEL_TARGETS)
+            again = vlib.coq_run_files([files[order[j]] for j in redo], timeout=3600)
+            for j, r in zip(redo, again):
+                outs[j] = r
+            redo = [j for j in redo if outs[j][0] != 0]
         import re
         for i, (rc, out) in zip(order, outs):
             fam, sh, ns, meta = owners[i]
@@ -1232,6 +1331,12 @@ def replay(ctx, path):
         out = L.run_fault_case((r['flavour'], r['fault_at'], 1, r.get('fault_kind', 'plus1')))
         print(out, L.judge_fault(out))
         return 0 if L.judge_fault(out)[0] != 'violation' else 1
+    if 'schedule' in r and 'nthreads' in r:
+        import c10_sched
+        why, events = c10_sched.run_schedule(concurrency_case(r['kfile'], r['kind'], r['variant'], r['nthreads']), r['schedule'])
+        print('\n'.join(events))
+        print('verdict:', why)
+        return 1 if why else 0
     if 'entry' in r and 'kfile' in r and 'spelling' in r:
         key = twin_keys(r['kfile'])[1 if r['key_type'] == 'rsa-pss' else 0]
         for entry, sp, thunk in dispatch_calls(key, bytes.fromhex(r['sig']), bytes.fromhex(r['msg']), r['hash'], r['slen']):
